@@ -502,7 +502,7 @@ def walk_vectors(g, cap):
     return out
 
 
-def min_cover_constrained(g, targets, constraints, coverage=1.0, stats=None):
+def min_cover_constrained(g, targets, constraints, coverage=1.0, stats=None, lengths=None):
     """Minimum number of S->T walks covering all target arcs such that every constraint (list of arcs) has at least
     ceil-free `coverage * len(set(constraint))` of its distinct arcs inside ONE of the walks. None if impossible."""
     cons = [sorted(set(tuple(e) for e in c)) for c in constraints]
@@ -514,7 +514,10 @@ def min_cover_constrained(g, targets, constraints, coverage=1.0, stats=None):
         tmask |= 1 << idx[e]
     cmasks = []
     for c in cons:
-        cmasks.append(([idx[e] for e in c], coverage * len(c)))
+        if lengths is None:
+            cmasks.append(([(idx[e], 1) for e in c], coverage * len(c)))
+        else:
+            cmasks.append(([(idx[e], lengths.get(e, 1)) for e in c], coverage * sum(lengths.get(e, 1) for e in c)))
 
     def ok(combo):
         u = 0
@@ -523,7 +526,7 @@ def min_cover_constrained(g, targets, constraints, coverage=1.0, stats=None):
         if (u & tmask) != tmask:
             return False
         for bits, need in cmasks:
-            if not any(sum(1 for b in bits if m >> b & 1) >= need - 1e-9 for m in combo):
+            if not any(sum(wl for b, wl in bits if m >> b & 1) >= need - 1e-9 for m in combo):
                 return False
         return True
     if not targets and not cons:
